@@ -126,4 +126,19 @@ example : exprPosRunC (B "a[offset (1)]") =
   decide +kernel
 example : exprPosRun (slice (B "a[offset]") 2 8) = "OK (ident 6f6666736574) 0:Ident:0:6:NamePos=0,NameEnd=6" := by decide +kernel
 
+/-! Task E, stage 1: clause (a) evaluated on every sub-expression of a tree with CASE and IF (`c06=1`); the slice of
+the `CaseExpr` itself (1..34) re-parses to the same tree moved to offset 0 -/
+
+example : exprPosRunC (B " CASE a WHEN 1 THEN - 1 ELSE b END . f + IF ( x , y , z )") =
+    "OK (bin + (sel (case (ident 61) (when (int 31) (int 2d31)) (ident 62)) 66) (if (ident 78) (ident 79) (ident 7a))) 0:BinaryExpr:1:57:- 1:SelectorExpr:1:38:- 2:CaseExpr:1:34:Case=1,EndPos=31 3:Ident:6:7:NamePos=6,NameEnd=7 3:CaseWhen:8:23:When=8 4:IntLiteral:13:14:ValuePos=13,ValueEnd=14 4:IntLiteral:20:23:ValuePos=20,ValueEnd=23 3:CaseElse:24:30:Else=24 4:Ident:29:30:NamePos=29,NameEnd=30 2:Ident:37:38:NamePos=37,NameEnd=38 1:IfExpr:41:57:If=41,Rparen=56 2:Ident:46:47:NamePos=46,NameEnd=47 2:Ident:50:51:NamePos=50,NameEnd=51 2:Ident:54:55:NamePos=54,NameEnd=55 c06=1" := by
+  decide +kernel
+example : exprPosRun (slice (B " CASE a WHEN 1 THEN - 1 ELSE b END . f + IF ( x , y , z )") 1 34) =
+    "OK (case (ident 61) (when (int 31) (int 2d31)) (ident 62)) 0:CaseExpr:0:33:Case=0,EndPos=30 1:Ident:5:6:NamePos=5,NameEnd=6 1:CaseWhen:7:22:When=7 2:IntLiteral:12:13:ValuePos=12,ValueEnd=13 2:IntLiteral:19:22:ValuePos=19,ValueEnd=22 1:CaseElse:23:29:Else=23 2:Ident:28:29:NamePos=28,NameEnd=29" := by
+  decide +kernel
+
+/-- Task E, stage 2: the text of an inner array literal re-parses to it (`Array` stays `InvalidPos`) -/
+example : exprPosRunC (B "[[a]]") =
+    "OK (array (array (ident 61))) 0:ArrayLiteral:0:5:Array=-1,Lbrack=0,Rbrack=4 1:ArrayLiteral:1:4:Array=-1,Lbrack=1,Rbrack=3 2:Ident:2:3:NamePos=2,NameEnd=3 c06=1" := by
+  decide +kernel
+
 end MF.Props.C06
